@@ -779,8 +779,8 @@ func (Prop) Run(t *testing.T, c *harness.Case, verbose bool) *harness.Result {
 		res.Counters[k] = v
 	}
 	res.Counters["ext_fault_fired"] = r.ctlR.fired
-	res.Counters["ext_lookup_hit"] = r.ctlR.hits
-	res.Counters["ext_lookup_miss"] = r.ctlR.misses
+	res.Counters["ext_lookup_hit"] = r.ctlM.hits
+	res.Counters["ext_lookup_miss"] = r.ctlM.misses
 	res.Counters["ops"] = len(w.Ops)
 	res.Counters["scopes"] = len(r.scopes)
 	res.LogHash = harness.HashStrings(string(c.Workload), fmt.Sprint(c.Events))
